@@ -20,6 +20,7 @@ class LocalWorld(World):
         self.nval = 0
         self.steps = []          # replay script
         self.setup = {}
+        ctx.panic_witness = self.witness
 
     # -- symbolic leaves
     allow_empty = True       # may a generated value be the empty string? (tags and dependencies are stored as "")
